@@ -22,6 +22,8 @@ unsafe impl parking_lot::lock_api::RawMutex for RawMutex {
             if self.0.swap(true, Ordering::Acquire) {
                 // was true -> is locked
                 std::hint::spin_loop();
+                #[cfg(oxidd_verif)]
+                oxidd_core::verif::yield_point("cache:entry-lock:blocked");
             } else {
                 // was false -> is now locked
                 return;
